@@ -83,6 +83,10 @@ pub fn install_panic_hook() {
             .location()
             .map(|l| format!("{}:{}", l.file(), l.line()))
             .unwrap_or_else(|| "<unknown>".into());
+        if !IN_CALL.load(Ordering::Relaxed) {
+            // a panic outside a guarded call is a defect of the harness itself: say so loudly
+            eprintln!("AISMON-HARNESS-PANIC '{}' at {}", msg, loc);
+        }
         LAST_PANIC.with(|p| *p.borrow_mut() = Some(PanicInfo { msg, loc }));
     }));
 }
